@@ -26,15 +26,16 @@ def removeTwoNodeCycles (g : G) : G :=
 def dfsFuel (g : G) : Nat := 2 * g.edges.size + 2 * g.nodes.size + 4
 
 /-- `hasCycles`: one run of the `visit` machine per node that is not finished yet -/
-def hasCycles (g : G) : M Bool := do
-  let mut fin : List Nat := []
-  for n in g.nodeIds do
-    if !fin.contains n then
-      match DfsHasCyclesSound.run (outAdj g) (dfsFuel g) ⟨[(n, outAdj g n)], fin⟩ with
-      | .cyc _ _ _ => return true
-      | .done f => fin := f
+def hasCyclesLoop (g : G) : List Nat → List Nat → M Bool
+  | [], _ => pure false
+  | n :: ns, fin =>
+    if fin.contains n then hasCyclesLoop g ns fin
+    else match DfsHasCyclesSound.run (outAdj g) (dfsFuel g) ⟨[(n, outAdj g n)], fin⟩ with
+      | .cyc _ _ _ => pure true
+      | .done f => hasCyclesLoop g ns f
       | .fuelOut => throw "fuel:phase1.visit"
-  pure false
+
+def hasCycles (g : G) : M Bool := hasCyclesLoop g g.nodeIds []
 
 /-- the roots `execDepthFirst` starts from: sources first, then every node -/
 def dfsRoots (g : G) : List Nat := (g.nodeIds.filter fun n => (g.node n).ins.isEmpty) ++ g.nodeIds
